@@ -21,6 +21,9 @@ def pool(chk, n):
               b"9300000000000000000", b"18446744073709551615", b"18446744073709551616", b"018446744073709551616",
               b"100000000000000000000000000000000000001", b"1.18446744073709551617"]:
         out.append((0, u, b""))
+    # epochs are unsigned machine words in the implementation: the whole range, far apart and next to each other at the top
+    for e in (2**63 - 1, 2**63, 2**63 + 5, 2**64 - 1, 2**64 - 2, 2**62):
+        out.append((e, b"1.0", b"1"))
     out.append((0, b"1", b"18446744073709551616"))
     out.append((0, b"1", b"9223372036854775809"))
     while len(out) < n:
@@ -36,7 +39,7 @@ def pool(chk, n):
 
 def run(chk):
     rng = chk.rng
-    n = chk.n(84, 170)
+    n = chk.n(92, 180)
     vs = pool(chk, n)
     cases = [("vcmp", [a[0], a[1], a[2], b[0], b[1], b[2]]) for a in vs for b in vs]
     impl, model = chk.run_both(cases)
